@@ -1,5 +1,5 @@
 """C57 Rock rebuild indexes only intact entries from any disk image."""
-import os
+import os, re, itertools
 from vf.util import VERIF
 from vf.harness import ProcHarness
 
@@ -7,6 +7,40 @@ ID = "C57"
 PROP_MODULE = "SquidModel.Properties.C57"
 MODEL = "c57"
 GEN = ["rock_rebuild"]
+MINIMISE_BUDGET = 200
+MAX_REPORT = 8
+
+RULE = ("r <N> <slotSize> <S> <slot>*N: one rock db image per line (cell headers + swap metadata class per slot, `z` = zeroed slot, "
+        "`t` = file truncated here); the harness writes the db file and runs the real Rock::Rebuild to completion, the dump lists every "
+        "anchor, slice, LoadingSlot flag, the free-slot stack and the counters. Streams: valid multi-slot entries in scrambled slot "
+        "order; crash points (chains cut after j slots over stale/empty slots); mutations of every header field, links, keys, "
+        "versions, metadata classes, duplicates, zeroed and truncated slots; random cells; exhaustive small images (thorough). "
+        "non-trivial = at least one entry became readable or was rejected after being partially loaded; distinct = distinct lines")
+TRUSTED = ["the swap metadata parser Store::UnpackIndexSwapMeta enters the model through its result (zeroed / unparsable / parsed key, "
+           "swap_file_sz, flags, swap_hdr_sz); the harness serialises metadata of exactly these classes and the real parser runs on them",
+           "Ipc::ReadWriteLock is modelled as the writing bit (no readers exist while a single process rebuilds); StoreMap::fileNos relocation "
+           "(used by updaters only) is the identity",
+           "the harness drives the Rock::Rebuild job (start() + steps() until doneLoading && doneValidating) in foreground mode instead of the "
+           "event loop and turns squid's assert()/uncaught job exceptions into a `crash:` result instead of abort()",
+           "disk read errors (FD_READ_METHOD < 0) and lseek failures are not generated"]
+ASSUMPTIONS = ["the map is empty and nobody else stores entries while the rebuild runs (squid -F / single process); resuming a rebuild interrupted "
+               "by a kid crash (Rebuild::Stats in shared memory) is not covered",
+               "slot count below 2^31 and payload sums below 2^64 (sizes are unbounded naturals in the model)"]
+MANIFEST = {
+    "text": "partial: for every db image (any list of raw slots, any metadata parser results) and all eight source variants: rebuild never "
+            "exhausts the fuel of its three link-following loops (terminates); every readable entry of the final map has a slice chain that "
+            "starts at anchor.start, is acyclic, stays inside the db, ends with -1, is disjoint from every other readable chain and whose "
+            "sizes add up to the loaded size; that sum equals swap_file_sz in the finalizeChecksKnownSize variant and is <= it otherwise. "
+            "Proved counterexamples for the pinned source: an inode declaring more than is present becomes readable with swap_file_sz > "
+            "sum of its slices; a nextSlot pointing into another entry makes a readable chain contain a slot that is on the free list; "
+            "all-ones entrySize/swap_file_sz, a doubly freed stolen slot and (-S) an unprocessed slot crash the rebuild.",
+    "note": "trusted: Lean kernel, translator (constants printed by the staged harness, three source-shape flags by regex), C++ harness that "
+            "serialises images and dumps the real map, python oracle. Modelled not verified: Store::UnpackIndexSwapMeta (enters as its "
+            "result). Not modelled: rebuild resumption after a kid crash, concurrent traffic during rebuild (leIgnored is modelled but "
+            "unreachable from an empty map), read errors",
+    "technique": "Lean 4 inductive invariant over the slot-by-slot loading loop (function-valued state, chain predicates, pigeonhole fuel "
+                 "bound) + full-state differential run of the real Rock::Rebuild on synthesised db files under ASan/UBSan + direct oracle",
+}
 
 # code under test, compiled from the stage with ASan/UBSan and placed before the tree's own (unsanitised) objects;
 # src/fs/rock/RockRebuild.cc itself is #included by harness/c57.cc
@@ -38,5 +72,697 @@ def build_exe(stage):
     return built["c57"]
 
 
+class Parallel:
+    """the same executable over contiguous chunks of the lines, a few processes side by side (each case is independent:
+    the harness creates its own db file and shared segments, named after its pid)"""
+
+    def __init__(self, exe, jobs):
+        self.exe, self.jobs = exe, max(1, jobs)
+        self.crashes = 0
+
+    def run(self, lines):
+        from concurrent.futures import ThreadPoolExecutor
+        lines = list(lines)
+        k = min(self.jobs, max(1, len(lines) // 50))
+        size = (len(lines) + k - 1) // k
+        chunks = [lines[i:i + size] for i in range(0, len(lines), size)]
+        hs = [ProcHarness([self.exe], env={"UBSAN_OPTIONS": "print_stacktrace=0:halt_on_error=1:exitcode=86"}) for _ in chunks]
+        with ThreadPoolExecutor(max_workers=k) as ex:
+            outs = list(ex.map(lambda hc: hc[0].run(hc[1]), zip(hs, chunks)))
+        self.crashes += sum(h.crashes for h in hs)
+        return [o for out in outs for o in out]
+
+
 def build(stage):
-    return ProcHarness([build_exe(stage)])
+    return Parallel(build_exe(stage), min(4, int(os.environ.get("VERIF_JOBS", "4"))))
+
+
+# ------------------------------------------------------------------------------------------------ image representation
+
+U64 = 1 << 64
+ALL_ONES = U64 - 1
+HDR = 40          # sizeof(DbCellHeader); the harness refuses metadata that does not fit slotSize - HDR
+META_KEYED = 75   # swap_hdr_sz of prefix + key + std_lfs as serialised by the harness
+META_KEYLESS = 54
+KEY_PRIVATE = 1 << 7
+
+
+class Cell:
+    """one non-empty db slot: DbCellHeader fields + metadata class token"""
+    __slots__ = ("k0", "k1", "esz", "psz", "ver", "first", "next", "meta")
+
+    def __init__(self, k0, k1, esz, psz, ver, first, nxt, meta="-"):
+        self.k0, self.k1, self.esz, self.psz, self.ver, self.first, self.next, self.meta = k0, k1, esz, psz, ver, first, nxt, meta
+
+    def copy(self):
+        return Cell(self.k0, self.k1, self.esz, self.psz, self.ver, self.first, self.next, self.meta)
+
+    def tok(self):
+        return "c:%d:%d:%d:%d:%d:%d:%d:%s" % (self.k0, self.k1, self.esz, self.psz, self.ver, self.first, self.next, self.meta)
+
+
+def slot_tok(s):
+    return s if isinstance(s, str) else s.tok()
+
+
+def line_of(n, slot_size, s_flag, slots):
+    assert len(slots) == n
+    if "t" in slots:     # the file ends at the first truncated slot
+        k = slots.index("t")
+        slots = slots[:k] + ["t"] * (n - k)
+    return "r %d %d %d %s" % (n, slot_size, s_flag, " ".join(slot_tok(s) for s in slots))
+
+
+def parse_slot(tok):
+    if tok in ("z", "t"):
+        return tok
+    f = tok.split(":")
+    if len(f) != 9 or f[0] != "c":
+        raise ValueError(tok)
+    return Cell(int(f[1]), int(f[2]), int(f[3]), int(f[4]), int(f[5]), int(f[6]), int(f[7]), f[8])
+
+
+def parse_line(line):
+    tk = line.split()
+    n, slot_size, s_flag = int(tk[1]), int(tk[2]), int(tk[3])
+    return n, slot_size, s_flag, [parse_slot(t) for t in tk[4:]]
+
+
+def fileno(k0, k1, n):
+    return ((k0 + k1) % U64) % min(n, 1 << 24)
+
+
+def meta_ok(mk0, mk1, sfs, flags=0, hdrlen=META_KEYED):
+    return "K.%d.%d.%d.%d.%d" % (mk0, mk1, sfs, flags, hdrlen)
+
+
+def parse_meta(tok):
+    """-> None (parser fails / zeroed / keyless) or (mk0, mk1, sfs, flags, hdrlen)"""
+    p = tok.split(".")
+    if p[0] == "K" and len(p) == 6:
+        return tuple(int(x) for x in p[1:])
+    return None
+
+
+def cell_sane(c, n, slot_size):
+    return 0 <= c.first < n and -1 <= c.next < n and c.ver > 0 and 0 < c.psz <= slot_size - HDR
+
+
+def cell_empty(c):
+    return c.first == 0 and c.next == 0 and c.psz == 0
+
+
+def usable(s, n, slot_size):
+    """a slot useNewSlot() gets to see"""
+    return isinstance(s, Cell) and not cell_empty(s) and cell_sane(s, n, slot_size)
+
+
+# ------------------------------------------------------------------------------------------------ generators
+
+def key_for(rng, f, n, kind=0):
+    """a key that hashes to fileno f of an n-entry map"""
+    if kind == 0:      # small words
+        k0 = rng.range(1, 1000)
+        k1 = (f - k0) % n + n * rng.below(50)
+    elif kind == 1:    # big words whose 64-bit sum wraps
+        k0 = rng.range(U64 - 1000, U64 - 1)
+        base = (U64 - k0)          # k0 + base == 0 mod 2^64
+        k1 = (base + f + n * rng.below(20)) % U64
+        if fileno(k0, k1, n) != f:
+            k1 = (k1 + (f - fileno(k0, k1, n))) % U64
+    else:              # one zero word
+        k0 = 0
+        k1 = f + n * rng.range(0, 30)
+        if k1 == 0:
+            k1 = n
+    if fileno(k0, k1, n) != f:   # n not dividing 2^64 makes the wrapping case approximate: fall back
+        k0 = 7
+        k1 = (f - 7) % n + n
+    return k0, k1
+
+
+def make_entry(rng, n, slot_size, f, positions, ver=None, key=None, size_mode=None):
+    """cells of one well-formed entry stored at `positions` (chain order); returns {pos: Cell}"""
+    k0, k1 = key if key else key_for(rng, f, n, rng.choice([0, 0, 0, 1, 2]))
+    ver = ver or rng.range(1, 5)
+    maxp = slot_size - HDR
+    sizes = [rng.choice([1, 2, 3, rng.range(1, maxp), maxp]) for _ in positions]
+    total = sum(sizes)
+    mode = size_mode if size_mode is not None else rng.below(8)
+    hdrlen = META_KEYED if rng.chance(3, 4) or slot_size - HDR < META_KEYED + 6 else rng.range(META_KEYED + 6, min(slot_size - HDR, 400))
+    if mode <= 2:      # size in the cell header and in the metadata
+        esz, sfs = total, total
+    elif mode == 3:    # size in the cell header only
+        esz, sfs = total, 0
+    elif mode == 4:    # size in the metadata only
+        esz, sfs = 0, total
+    elif mode == 5:    # unknown until the end
+        esz, sfs = 0, 0
+    elif mode == 6:    # metadata counts the body without the swap header
+        esz, sfs = total, (total - hdrlen) % U64
+        if sfs == 0:
+            sfs = total
+    else:
+        esz, sfs = total, total
+    cells = {}
+    for i, p in enumerate(positions):
+        nxt = positions[i + 1] if i + 1 < len(positions) else -1
+        inode = i == 0
+        # squid writes entrySize into every cell once known; only the inode's value is read by the rebuild
+        cells[p] = Cell(k0, k1, esz if (inode or rng.chance(1, 2)) else 0, sizes[i], ver, positions[0], nxt,
+                        meta_ok(k0, k1, sfs, 0, hdrlen) if inode else "-")
+    return cells
+
+
+def valid_image(rng, n, slot_size, nent=None):
+    """slots with a few well-formed entries on distinct filenos; -> (slots, entries) with entries = [(f, positions)]"""
+    slots = ["z"] * n
+    free = list(range(n))
+    rng.shuffle(free)
+    filenos = list(range(n))
+    rng.shuffle(filenos)
+    nent = nent if nent is not None else rng.range(1, max(1, min(5, n // 2)))
+    entries = []
+    for e in range(nent):
+        if not free or not filenos:
+            break
+        m = min(len(free), rng.choice([1, 1, 2, 2, 3, 4, rng.range(1, 6)]))
+        pos = [free.pop() for _ in range(m)]
+        f = filenos.pop()
+        for p, c in make_entry(rng, n, slot_size, f, pos).items():
+            slots[p] = c
+        entries.append((f, pos))
+    return slots, entries
+
+
+def pick_geometry(rng, tier):
+    n = rng.choice([1, 2, 3, 4, 5, 6, 8, 8, 12, 16, 16, 24, 32] + ([48, 64, 100] if tier == "thorough" else []))
+    slot_size = rng.choice([128, 128, 160, 256, 256, 512, 1024, 4096, 4136, 8192])
+    return n, slot_size
+
+
+def mutate(rng, n, slot_size, slots, entries, allow_crashy):
+    """one mutation in place; returns a short name"""
+    cells = [i for i, s in enumerate(slots) if isinstance(s, Cell)]
+    kind = rng.below(22)
+    if not cells:
+        kind = 21
+    if kind == 0 and cells:          # nextSlot anywhere (incl. out of range, self, another entry)
+        i = rng.choice(cells)
+        slots[i] = c = slots[i].copy()
+        c.next = rng.choice([-1, i, rng.range(-1, n - 1), rng.choice(cells), n, n + 1, -2, 2147483647, -2147483648])
+        return "next"
+    if kind == 1 and cells:          # firstSlot
+        i = rng.choice(cells)
+        slots[i] = c = slots[i].copy()
+        c.first = rng.choice([i, rng.range(0, n - 1), rng.choice(cells), n, -1, 2147483647])
+        return "first"
+    if kind == 2 and cells:          # payloadSize
+        i = rng.choice(cells)
+        slots[i] = c = slots[i].copy()
+        c.psz = rng.choice([0, 1, max(1, c.psz - 1), c.psz + 1, slot_size - HDR, slot_size - HDR + 1, slot_size, 4294967295])
+        return "psz"
+    if kind == 3 and cells:          # entrySize
+        i = rng.choice(cells)
+        slots[i] = c = slots[i].copy()
+        opts = [0, 1, max(0, c.esz - 1), c.esz + 1, c.esz + rng.range(1, 100), rng.range(1, 4 * slot_size), ALL_ONES - 1, 1 << 63]
+        if allow_crashy:
+            opts += [ALL_ONES] * 3
+        c.esz = rng.choice(opts)
+        return "esz"
+    if kind == 4 and cells:          # version
+        i = rng.choice(cells)
+        slots[i] = c = slots[i].copy()
+        c.ver = rng.choice([0, c.ver + 1, 4294967295, 1])
+        return "ver"
+    if kind == 5 and cells:          # key: another entry's key, a colliding key, the zero key, a key of another fileno
+        i = rng.choice(cells)
+        slots[i] = c = slots[i].copy()
+        f = fileno(c.k0, c.k1, n)
+        r = rng.below(5)
+        if r == 0:
+            o = slots[rng.choice(cells)]
+            c.k0, c.k1 = o.k0, o.k1
+        elif r == 1:
+            c.k0, c.k1 = key_for(rng, f, n, rng.below(3))
+        elif r == 2:
+            c.k0, c.k1 = 0, 0
+        elif r == 3:
+            c.k0, c.k1 = key_for(rng, rng.below(n), n, rng.below(3))
+        else:
+            c.k0, c.k1 = c.k1, c.k0
+        return "key"
+    if kind == 6 and cells:          # metadata class of an inode (or of any cell)
+        inodes = [i for i in cells if slots[i].first == i] or cells
+        i = rng.choice(inodes)
+        slots[i] = c = slots[i].copy()
+        m = parse_meta(c.meta)
+        total = c.esz or (m[2] if m else 0) or rng.range(1, 300)
+        r = rng.below(12)
+        if r < 4:
+            c.meta = rng.choice(["Z", "B", "G", "F", "-"])
+        elif r == 4:
+            c.meta = "N.%d.0.%d" % (rng.choice([0, total]), META_KEYLESS)
+        elif r == 5:
+            c.meta = meta_ok(c.k0, c.k1, rng.choice([0, total]), KEY_PRIVATE | rng.below(128), META_KEYED)
+        elif r == 6:     # metadata key differs from the cell key (same or other fileno, or zero)
+            mk = rng.choice([(0, 0), key_for(rng, fileno(c.k0, c.k1, n), n, 0), key_for(rng, rng.below(n), n, 0), (c.k1, c.k0)])
+            c.meta = meta_ok(mk[0], mk[1], rng.choice([0, total]), 0, META_KEYED)
+        elif r == 7:     # swap_file_sz disagrees with the cell header
+            opts = [1, total + 1, max(1, total - 1), total + META_KEYED, (total - META_KEYED) % U64, ALL_ONES - 1]
+            if allow_crashy:
+                opts += [ALL_ONES]
+            c.meta = meta_ok(c.k0, c.k1, rng.choice(opts), 0, META_KEYED)
+        elif r == 8 and slot_size - HDR >= META_KEYED + 6:
+            hl = rng.choice([META_KEYED + 6, min(slot_size - HDR, 4000), rng.range(META_KEYED + 6, min(slot_size - HDR, 4000))])
+            c.meta = meta_ok(c.k0, c.k1, rng.choice([0, total, (total - hl) % U64]), 0, hl)
+        elif r == 9:
+            c.meta = meta_ok(c.k0, c.k1, 0, rng.below(65536) & ~KEY_PRIVATE, META_KEYED)
+        else:
+            c.meta = meta_ok(c.k0, c.k1, total, 0, META_KEYED)
+        return "meta"
+    if kind == 7 and cells:          # duplicate a cell into another position
+        i = rng.choice(cells)
+        j = rng.below(n)
+        slots[j] = c = slots[i].copy()
+        if rng.chance(1, 2):
+            c.ver += 1
+        if rng.chance(1, 3):
+            c.first = j
+        return "dup"
+    if kind == 8:                    # zero a slot
+        slots[rng.below(n)] = "z"
+        return "zero"
+    if kind == 9:                    # truncate the file
+        k = rng.below(n + 1)
+        for i in range(k, n):
+            slots[i] = "t"
+        return "trunc"
+    if kind == 10 and entries:       # crash point: the tail of a chain was never written (empty or stale cells remain)
+        f, pos = rng.choice(entries)
+        j = rng.range(0, len(pos) - 1)
+        for p in pos[j:] if rng.chance(1, 4) else pos[j + 1:] or pos[-1:]:
+            if rng.chance(1, 2):
+                slots[p] = "z"
+            else:            # a stale cell of some older entry
+                g = rng.below(n)
+                k0, k1 = key_for(rng, g, n, 0)
+                slots[p] = Cell(k0, k1, rng.choice([0, 5]), rng.range(1, slot_size - HDR), rng.range(1, 3), rng.choice([p, rng.below(n)]),
+                                rng.choice([-1, rng.below(n)]), rng.choice(["-", meta_ok(k0, k1, 0)]))
+        return "crashpoint"
+    if kind == 11 and len(entries) >= 2:   # chain of one entry continues in another entry's chain
+        (fa, pa), (fb, pb) = rng.choice(entries), rng.choice(entries)
+        if fa != fb:
+            i = rng.choice(pa)
+            if isinstance(slots[i], Cell):
+                slots[i] = c = slots[i].copy()
+                c.next = rng.choice(pb)
+        return "cross"
+    if kind == 12 and len(entries) >= 2:   # the stealing pattern: B's link replaced by a same-sized slot of A
+        (fa, pa), (fb, pb) = rng.choice(entries), rng.choice(entries)
+        if fa != fb and len(pb) >= 2 and isinstance(slots[pb[0]], Cell) and isinstance(slots[pb[1]], Cell):
+            victim = rng.choice(pa)
+            if isinstance(slots[victim], Cell):
+                slots[victim] = v = slots[victim].copy()
+                v.psz = slots[pb[1]].psz
+                slots[pb[0]] = c = slots[pb[0]].copy()
+                c.next = victim
+                if rng.chance(1, 2):
+                    slots[victim].next = slots[pb[1]].next
+        return "steal"
+    if kind == 13 and cells:         # cycle inside a chain
+        i = rng.choice(cells)
+        slots[i] = c = slots[i].copy()
+        c.next = c.first if rng.chance(1, 2) else i
+        return "cycle"
+    if kind == 14 and entries:       # a second complete copy of an entry (same key, other version) elsewhere
+        f, pos = rng.choice(entries)
+        spare = [i for i, s in enumerate(slots) if s == "z"]
+        rng.shuffle(spare)
+        if len(spare) >= len(pos) and isinstance(slots[pos[0]], Cell):
+            newpos = spare[:len(pos)]
+            key = (slots[pos[0]].k0, slots[pos[0]].k1)
+            for p, c in make_entry(rng, n, slot_size, f, newpos, ver=slots[pos[0]].ver + 1, key=key).items():
+                slots[p] = c
+        return "twin"
+    if kind == 15 and entries:       # another key on the same fileno
+        f, pos = rng.choice(entries)
+        spare = [i for i, s in enumerate(slots) if s == "z"]
+        rng.shuffle(spare)
+        if spare:
+            newpos = spare[:rng.range(1, min(3, len(spare)))]
+            for p, c in make_entry(rng, n, slot_size, f, newpos).items():
+                slots[p] = c
+        return "collide"
+    if kind == 16 and cells:         # swap two slots' contents without fixing links
+        i, j = rng.choice(cells), rng.below(n)
+        slots[i], slots[j] = slots[j], slots[i]
+        return "swap"
+    if kind == 17 and entries:       # inode declares more (or less) than the chain holds
+        f, pos = rng.choice(entries)
+        if isinstance(slots[pos[0]], Cell):
+            slots[pos[0]] = c = slots[pos[0]].copy()
+            total = sum(slots[p].psz for p in pos if isinstance(slots[p], Cell))
+            d = rng.choice([1, 1, 2, 75, 1000])
+            c.esz = max(1, total + d if rng.chance(2, 3) else total - d)
+            if rng.chance(1, 2):
+                c.meta = meta_ok(c.k0, c.k1, rng.choice([0, c.esz]), 0, META_KEYED)
+        return "declared"
+    if kind == 18 and cells:         # an extra slot with the key of an existing entry
+        i = rng.choice(cells)
+        j = rng.below(n)
+        o = slots[i]
+        slots[j] = Cell(o.k0, o.k1, rng.choice([0, o.esz]), rng.range(1, slot_size - HDR), rng.choice([o.ver, o.ver + 1]),
+                        rng.choice([o.first, j]), rng.choice([-1, o.next, rng.range(-1, n - 1)]), rng.choice(["-", o.meta]))
+        return "extra"
+    if kind == 19 and cells:         # unlink: the predecessor now ends the chain
+        i = rng.choice(cells)
+        slots[i] = c = slots[i].copy()
+        c.next = -1
+        return "unlink"
+    if kind == 20 and cells:         # make a tail cell claim to be an inode
+        i = rng.choice(cells)
+        slots[i] = c = slots[i].copy()
+        c.first = i
+        if rng.chance(1, 2):
+            c.meta = meta_ok(c.k0, c.k1, rng.choice([0, c.esz]), 0, META_KEYED)
+        return "inode"
+    # fully random cell
+    j = rng.below(n)
+    k0, k1 = key_for(rng, rng.below(n), n, rng.below(3))
+    slots[j] = Cell(k0, k1, rng.choice([0, 1, 2, 3, rng.range(0, 500)]), rng.choice([1, 2, 3, rng.range(0, slot_size)]), rng.range(0, 3),
+                    rng.range(-1, n), rng.range(-2, n), rng.choice(["-", "Z", meta_ok(k0, k1, rng.choice([0, 1, 2, 3])), "N.0.0.%d" % META_KEYLESS]))
+    return "random"
+
+
+def crashy(slots):
+    """could trip the all-ones asserts (kept rare: the real squid dies on them)"""
+    for s in slots:
+        if isinstance(s, Cell):
+            m = parse_meta(s.meta)
+            if s.esz == ALL_ONES or (m and m[2] == ALL_ONES):
+                return True
+    return False
+
+
+def small_images(n, alphabet):
+    for img in itertools.product(alphabet, repeat=n):
+        yield list(img)
+
+
+def small_alphabet(n, rich):
+    """cells for the exhaustive small scope: two filenos, every first/next, two payload sizes, three declared sizes"""
+    out = ["z"]
+    keys = [(1, 0), (2, 0)] if n > 1 else [(1, 0)]
+    for (k0, k1) in keys:
+        for first in range(n):
+            for nxt in range(-1, n):
+                for psz in ((1, 2) if rich else (1,)):
+                    for esz in ((0, 2, 3) if rich else (0, 2)):
+                        out.append(Cell(k0, k1, esz, psz, 1, first, nxt, meta_ok(k0, k1, 0)))
+    return out
+
+
+def cases(rng, tier):
+    thorough = tier == "thorough"
+    # 1. exhaustive small scopes
+    if thorough:
+        for img in small_images(1, small_alphabet(1, True)):
+            yield line_of(1, 128, 1, img)
+        for img in small_images(2, small_alphabet(2, True)):
+            yield line_of(2, 128, 0, img)
+        a3 = small_alphabet(3, False)
+        for img in small_images(3, a3[::3] if len(a3) > 40 else a3):
+            yield line_of(3, 128, 0, img)
+    else:
+        for img in small_images(2, small_alphabet(2, False)):
+            yield line_of(2, 128, 1 if rng.chance(1, 4) else 0, img)
+    # 2. valid images (every entry must become readable) in scrambled slot order
+    nvalid = 1500 if thorough else 250
+    for _ in range(nvalid):
+        n, slot_size = pick_geometry(rng, tier)
+        slots, _ = valid_image(rng, n, slot_size)
+        yield line_of(n, slot_size, rng.below(2), slots)
+    # 3. mutated images
+    nmut = 30000 if thorough else 2500
+    ncrashy = 0
+    for _ in range(nmut):
+        n, slot_size = pick_geometry(rng, tier)
+        slots, entries = valid_image(rng, n, slot_size)
+        allow = ncrashy < (40 if thorough else 6)
+        for _ in range(rng.choice([1, 1, 1, 2, 2, 3, 5])):
+            mutate(rng, n, slot_size, slots, entries, allow)
+        if crashy(slots):
+            if not allow:
+                continue
+            ncrashy += 1
+        yield line_of(n, slot_size, 1 if rng.chance(1, 3) else 0, slots)
+    # 4. dense random images on few filenos (collisions, long "more" chains)
+    nrand = 6000 if thorough else 500
+    for _ in range(nrand):
+        n = rng.choice([2, 3, 4, 5, 6, 8])
+        slot_size = 128
+        keys = [key_for(rng, rng.below(n), n, 0) for _ in range(rng.range(1, 3))]
+        slots = []
+        for i in range(n):
+            if rng.chance(1, 6):
+                slots.append("z")
+                continue
+            k0, k1 = rng.choice(keys)
+            esz = rng.choice([0, 0, 1, 2, 3, 4, 5])
+            slots.append(Cell(k0, k1, esz, rng.choice([1, 1, 2, 3]), rng.choice([1, 1, 2]), rng.choice([i, rng.below(n)]), rng.range(-1, n - 1),
+                              rng.choice([meta_ok(k0, k1, 0), meta_ok(k0, k1, esz), "-", "Z"])))
+        yield line_of(n, slot_size, 1 if rng.chance(1, 3) else 0, slots)
+
+
+def exhaustive(tier):
+    return True   # all 2-slot images over the small alphabet (quick); 1-, 2- and sampled 3-slot images over the richer one (thorough)
+
+
+# ------------------------------------------------------------------------------------------------ the direct oracle
+
+class Dump:
+    """parsed `ok ...` line of the harness"""
+
+    def __init__(self, text):
+        parts = dict(p.split("=", 1) for p in text.split(" ")[1:])
+        self.count = int(parts["n"])
+        self.states = parts["st"]
+        self.anchors = {}
+        if parts["A"] != "-":
+            for a in parts["A"].split(","):
+                f, fl, key, start, sfs = a.split(":")
+                k0, k1 = key.split(".")
+                self.anchors[int(f)] = {"flags": fl, "k0": int(k0), "k1": int(k1), "start": int(start), "sfs": int(sfs)}
+        self.slices = {}
+        if parts["S"] != "-":
+            for s in parts["S"].split(","):
+                i, size, nxt = s.split(":")
+                self.slices[int(i)] = (int(size), int(nxt))
+        self.free = [] if parts["F"] == "-" else [int(x) for x in parts["F"].split(",")]
+        self.lflags = [x.split("/") for x in parts["L"].split(",")]
+
+    def readable(self):
+        """filenos a reader may open: unlocked, non-empty key, not marked for deletion"""
+        return [f for f, a in sorted(self.anchors.items())
+                if "w" not in a["flags"] and "q" not in a["flags"] and (a["k0"] or a["k1"])]
+
+    def chain(self, f, n):
+        """-> (slot list, problem or None)"""
+        out, seen = [], set()
+        s = self.anchors[f]["start"]
+        while s != -1:
+            if s < 0 or s >= n:
+                return out, "chain of entry %d leaves the db at slot id %d" % (f, s)
+            if s in seen:
+                return out, "chain of entry %d is cyclic at slot %d" % (f, s)
+            seen.add(s)
+            out.append(s)
+            s = self.slices.get(s, (0, -1))[1]
+        return out, None
+
+
+def judge(line, impl):
+    """-> list of (kind, text); kinds: crash size free foreign shared cyclic range locked empty mismatch unparsable"""
+    if impl.startswith("crash:") or impl.startswith("abort:"):
+        return [("crash", "rebuild crashed: " + impl)]
+    if impl.startswith("bad-"):
+        return []
+    try:
+        n, slot_size, s_flag, slots = parse_line(line)
+        d = Dump(impl)
+    except Exception as e:   # noqa
+        return [("unparsable", "unparsable harness output %r (%s)" % (impl[:80], e))]
+    probs = []
+    if "L" in d.states or any("w" in a["flags"] for a in d.anchors.values()):
+        probs.append(("locked", "rebuild finished with an entry still being loaded"))
+    used = {}
+    freeset = set(d.free)
+    for f in d.readable():
+        a = d.anchors[f]
+        chain, prob = d.chain(f, n)
+        if prob:
+            probs.append(("cyclic" if "cyclic" in prob else "range", prob))
+            continue
+        if not chain:
+            probs.append(("empty", "readable entry %d has no slots" % f))
+            continue
+        total = 0
+        for s in chain:
+            size, nxt = d.slices.get(s, (0, -1))
+            total += size
+            if size == 0:
+                probs.append(("empty", "readable entry %d links the empty slice %d" % (f, s)))
+            if s in freeset:
+                probs.append(("free", "slot %d of readable entry %d is on the free-slot stack" % (s, f)))
+            if s in used:
+                probs.append(("shared", "slot %d is linked by readable entries %d and %d" % (s, used[s], f)))
+            used[s] = f
+            c = slots[s]
+            if not usable(c, n, slot_size):
+                probs.append(("foreign", "slot %d of readable entry %d is not a valid db cell" % (s, f)))
+            else:
+                if c.psz != size or c.next != nxt:
+                    probs.append(("mismatch", "slice %d of readable entry %d differs from the db cell" % (s, f)))
+                if fileno(c.k0, c.k1, n) != f:
+                    probs.append(("foreign", "slot %d of readable entry %d belongs to entry %d on disk" % (s, f, fileno(c.k0, c.k1, n))))
+        if total != a["sfs"]:
+            probs.append(("size", "slices of readable entry %d add up to %d but its swap_file_sz is %d" % (f, total, a["sfs"])))
+    return probs
+
+
+def oracle(line, impl):
+    probs = judge(line, impl)
+    if not probs:
+        return None
+    return "; ".join("[%s] %s" % p for p in probs[:4])
+
+
+# ------------------------------------------------------------------------------------------------ known findings
+
+def links_leave_entry(n, slot_size, slots):
+    """some usable cell's nextSlot points at a slot that is not a usable cell of the same fileno"""
+    for i, c in enumerate(slots):
+        if usable(c, n, slot_size) and c.next >= 0:
+            t = slots[c.next]
+            if not usable(t, n, slot_size) or fileno(t.k0, t.k1, n) != fileno(c.k0, c.k1, n):
+                return True
+    return False
+
+
+def declared_sizes(n, slot_size, slots):
+    """{fileno: True} for inodes that declare a size (cell header or metadata)"""
+    out = set()
+    for i, c in enumerate(slots):
+        if usable(c, n, slot_size) and c.first == i:
+            m = parse_meta(c.meta)
+            if c.esz > 0 or (m and m[2] > 0):
+                out.add(fileno(c.k0, c.k1, n))
+    return out
+
+
+def classify(line, impl, why):
+    try:
+        n, slot_size, s_flag, slots = parse_line(line)
+    except Exception:   # noqa
+        return None
+    probs = judge(line, impl)
+    kinds = set(k for k, _ in probs)
+    if not kinds:
+        return None
+    if kinds == {"crash"}:
+        if impl in ("crash:assert:entrySize-all-ones", "crash:assert:swap_file_sz-all-ones") and crashy(slots):
+            return "C57-all-ones-size-assert"
+        if impl in ("crash:assert:free-slot-pushed-twice", "crash:must:unprocessed-slot") and links_leave_entry(n, slot_size, slots):
+            return "C57-foreign-next-slot"
+        return None
+    if kinds <= {"free", "foreign", "size"} and (kinds & {"free", "foreign"}):
+        # the chain of a readable entry runs through a slot of another entry (which may since have been freed)
+        if not links_leave_entry(n, slot_size, slots):
+            return None
+        if "size" in kinds and not size_is_short(line, impl):
+            return None
+        return "C57-foreign-next-slot"
+    if kinds == {"size"}:
+        return "C57-short-entry-finalised" if size_is_short(line, impl) else None
+    return None
+
+
+def size_is_short(line, impl):
+    """every [size] problem is `sum < swap_file_sz` on an entry whose inode declared a size"""
+    n, slot_size, s_flag, slots = parse_line(line)
+    d = Dump(impl)
+    declared = declared_sizes(n, slot_size, slots)
+    for f in d.readable():
+        chain, prob = d.chain(f, n)
+        if prob:
+            return False
+        total = sum(d.slices.get(s, (0, -1))[0] for s in chain)
+        sfs = d.anchors[f]["sfs"]
+        if total != sfs and not (total < sfs and f in declared):
+            return False
+    return True
+
+
+def shrink(line):
+    """image-aware shrinking: empty a slot, drop the last slot, simplify fields"""
+    try:
+        n, slot_size, s_flag, slots = parse_line(line)
+    except Exception:   # noqa
+        return
+    if n > 1 and slots[-1] in ("z", "t"):
+        ok = all(not isinstance(s, Cell) or (s.first < n - 1 and s.next < n - 1) for s in slots[:-1])
+        if ok:
+            # dropping a slot changes the hash: only when every key keeps its fileno
+            if all(not isinstance(s, Cell) or fileno(s.k0, s.k1, n) == fileno(s.k0, s.k1, n - 1) for s in slots[:-1]):
+                yield line_of(n - 1, slot_size, s_flag, slots[:-1])
+    for i, s in enumerate(slots):
+        if s != "z":
+            yield line_of(n, slot_size, s_flag, slots[:i] + ["z"] + slots[i + 1:])
+    if slot_size != 128 and all(not isinstance(s, Cell) or s.psz <= 128 - HDR for s in slots):
+        yield line_of(n, 128, s_flag, slots)
+    if s_flag:
+        yield line_of(n, slot_size, 0, slots)
+    for i, s in enumerate(slots):
+        if isinstance(s, Cell):
+            for field, val in (("psz", 1), ("esz", 0), ("ver", 1), ("next", -1), ("meta", "-"), ("meta", meta_ok(s.k0, s.k1, 0))):
+                if getattr(s, field) != val and len(str(val)) < len(str(getattr(s, field))):
+                    c = s.copy()
+                    setattr(c, field, val)
+                    yield line_of(n, slot_size, s_flag, slots[:i] + [c] + slots[i + 1:])
+            f = fileno(s.k0, s.k1, n)
+            small = (f if f else n, 0)
+            if (s.k0, s.k1) != small and len(str(small[0])) + 1 < len(str(s.k0)) + len(str(s.k1)):
+                # rename the key everywhere (cell keys and metadata keys)
+                out = []
+                for t in slots:
+                    if isinstance(t, Cell):
+                        t = t.copy()
+                        if (t.k0, t.k1) == (s.k0, s.k1):
+                            t.k0, t.k1 = small
+                        m = parse_meta(t.meta)
+                        if m and (m[0], m[1]) == (s.k0, s.k1):
+                            t.meta = meta_ok(small[0], small[1], m[2], m[3], m[4])
+                    out.append(t)
+                yield line_of(n, slot_size, s_flag, out)
+
+
+# ------------------------------------------------------------------------------------------------ evidence
+
+def nontrivial(line, impl, model):
+    if impl.startswith("crash:"):
+        return True
+    m = re.search(r" st=(\S+)", impl)
+    return bool(m) and ("D" in m.group(1) or "C" in m.group(1))
+
+
+def tag(line, impl, model):
+    if impl.startswith("crash:") or impl.startswith("abort:") or impl.startswith("bad-"):
+        return impl.split(" ")[0][:60]
+    m = re.search(r" st=(\S+)", impl)
+    st = m.group(1) if m else ""
+    nd, nc = st.count("D"), st.count("C")
+    n = len(st)
+    size = "n<=3" if n <= 3 else "n<=8" if n <= 8 else "n<=32" if n <= 32 else "n>32"
+    return "%s loaded=%s rejected=%s S=%s" % (size, "0" if nd == 0 else "1" if nd == 1 else "2+", "0" if nc == 0 else "1" if nc == 1 else "2+",
+                                              line.split(" ")[3])
